@@ -19,6 +19,14 @@ mod libmv {
     use ::glam_libm as glam;
     include!("suite.rs");
 }
+/// the same checks with `glam-assert` compiled in: the generated inputs satisfy the documented preconditions,
+/// so a panic there is a failure
+#[cfg(not(feature = "core"))]
+mod asserting {
+    pub const VARIANT: &str = "simd+glam-assert";
+    use ::glam_assert as glam;
+    include!("suite.rs");
+}
 #[cfg(feature = "core")]
 mod core_simd {
     pub const VARIANT: &str = "core";
@@ -33,6 +41,7 @@ fn main() {
     {
         subs.extend(simd::subs(&args));
         subs.extend(scalar::subs(&args));
+        subs.extend(asserting::subs(&args));
         // the libm build runs in every tier (a change confined to the libm math shims is invisible otherwise)
         {
             subs.extend(libmv::subs(&args));
